@@ -117,7 +117,14 @@ def run_case(case, ctx, mon):
         if is_log and len(op) > 3:
             s.rand_ptr = int(op[3])  # place the add so that it consumes the last draws of the current batch
             mon.count("log_adds_straddling_a_batch_end")
-        mon.api(s.add, key, v)
+        # the multiplicity is passed positionally or under its documented name
+        form = (len(key) + int(v)) % 5
+        if form == 3:
+            mon.api(s.add, key, value=v)
+        elif form == 4:
+            mon.api(s.add, key=key, value=v)
+        else:
+            mon.api(s.add, key, v)
         T1 = s.cms
         E1 = {k: s.query(k) for k in universe}
         N1 = int(s.n_added())
